@@ -59,7 +59,49 @@ def input_shaped_names(func_node, seeds: Set[str]) -> Set[str]:
 def rank_rule(ctx, rule: str, f, seeds: Set[str], what: str):
     shaped = input_shaped_names(f.node, seeds)
     bad: List[Tuple[ast.AST, str]] = []
+
+    def reachable_0d(node) -> bool:
+        """can `node` execute when the shaped values are 0-d?  Enclosing tests that compare `<shaped>.ndim` with a constant are
+        evaluated at ndim == 0; anything else is assumed possible"""
+        def holds_at_zero(test):
+            if isinstance(test, ast.Compare) and len(test.ops) == 1 and isinstance(test.left, ast.Attribute) and test.left.attr == "ndim" \
+                    and isinstance(test.left.value, ast.Name) and test.left.value.id in shaped \
+                    and isinstance(test.comparators[0], ast.Constant) and isinstance(test.comparators[0].value, int):
+                k = test.comparators[0].value
+                o = test.ops[0]
+                return {ast.Eq: 0 == k, ast.NotEq: 0 != k, ast.Lt: 0 < k, ast.LtE: 0 <= k, ast.Gt: 0 > k, ast.GtE: 0 >= k}.get(type(o))
+            return None
+        for a in ast.walk(f.node):
+            if isinstance(a, ast.If):
+                inb = any(node is x for b_ in a.body for x in ast.walk(b_))
+                ino = any(node is x for b_ in a.orelse for x in ast.walk(b_))
+                h = holds_at_zero(a.test)
+                if h is not None and ((inb and h is False) or (ino and h is True)):
+                    return False
+        return True
+
+    # a name rebound at the top level of the function to something of a fixed rank (`a = a.reshape([n, m])`) is no longer shaped
+    # like the input from that statement on
+    rebound_at: Dict[str, int] = {}
+    for st in f.node.body:
+        if isinstance(st, ast.Assign) and len(st.targets) == 1 and isinstance(st.targets[0], ast.Name) and st.targets[0].id in shaped \
+                and isinstance(st.value, ast.Call) and isinstance(st.value.func, ast.Attribute) and st.value.func.attr == "reshape" \
+                and st.value.args and isinstance(st.value.args[0], (ast.List, ast.Tuple, ast.Name)):
+            rebound_at.setdefault(st.targets[0].id, st.end_lineno or st.lineno)
+
+    def still_shaped(name: str, node) -> bool:
+        return not (name in rebound_at and getattr(node, "lineno", 0) > rebound_at[name])
+
     for n in ast.walk(f.node):
+        if isinstance(n, ast.Subscript) and isinstance(n.value, ast.Attribute) and n.value.attr == "shape" \
+                and isinstance(n.value.value, ast.Name) and not still_shaped(n.value.value.id, n):
+            continue
+        if isinstance(n, ast.Subscript) and isinstance(n.value, ast.Attribute) and n.value.attr == "shape" \
+                and isinstance(n.value.value, ast.Name) and n.value.value.id in shaped:
+            ix = n.slice
+            neg = isinstance(ix, ast.UnaryOp) and isinstance(ix.op, ast.USub) and isinstance(ix.operand, ast.Constant)
+            if (neg or (isinstance(ix, ast.Constant) and isinstance(ix.value, int))) and reachable_0d(n):
+                bad.append((n, f"`{ast.unparse(n)}` reads the length of an axis"))
         if isinstance(n, ast.Subscript) and isinstance(n.value, ast.Name) and n.value.id in shaped:
             sl = n.slice
             parts = list(sl.elts) if isinstance(sl, ast.Tuple) else [sl]
